@@ -15,7 +15,7 @@
 From Coq Require Import String Ascii List Arith ZArith Bool Lia.
 Import ListNotations.
 Require Import MD.Gen.DescTables.
-Open Scope nat_scope.
+Local Open Scope nat_scope.
 
 (* ------------------------------------------------------------------ topology *)
 Record atom := mkAtom { a_idx : nat; a_name : string; a_elem : string }.
@@ -154,7 +154,7 @@ Definition dist2 (box : option vec) (periodic : bool) (f : frame) (p : nat * nat
 (* ------------------------------------------------------------------ compute_contacts *)
 Inductive cspec := CAll (ignore_nonprotein : bool) | CExplicit (pairs : list (Z * Z)).
 
-Inductive cerr := ENoPairs | ERange | EManyCA | EEmptyCA | EZeroSize.
+Inductive cerr := ENoPairs | ERange | EManyCA | EEmptyCA | EZeroSize | EAmbiguous.
 
 (* result: residue_pairs and, per frame and residue pair, the list of squared atom-pair distances
    of the slice that feeds the reduction (min or soft-min) *)
@@ -174,34 +174,40 @@ Definition resolve (top : topology) (c : cspec) : cerr + list (nat * nat) :=
       else inl ERange
   end.
 
-(* scheme 'ca': None = ValueError("More than 1 alpha carbon ...") *)
-Fixpoint ca_scan (top : topology) (pairs : list (nat * nat)) : option (list (nat * nat) * list (nat * nat)) :=
+(* scheme 'ca'.  inl EManyCA = ValueError("More than 1 alpha carbon ...").
+   [strict] models today's code when `contacts` is passed as a numpy array: the skip branch evaluates
+   `if contacts != "all":` on an array, which raises ValueError("The truth value of an array ... is
+   ambiguous") instead of warning and skipping (as-found variant; the repaired code never is strict). *)
+Fixpoint ca_scan (strict : bool) (top : topology) (pairs : list (nat * nat))
+  : cerr + (list (nat * nat) * list (nat * nat)) :=
   match pairs with
-  | [] => Some ([], [])
+  | [] => inr ([], [])
   | (r0, r1) :: rest =>
       let c0 := ca_atoms (res top r0) in
       let c1 := ca_atoms (res top r1) in
       match c0, c1 with
       | [a], [b] =>
-          match ca_scan top rest with
-          | Some (rp, ap) => Some ((r0, r1) :: rp, (a, b) :: ap)
-          | None => None
+          match ca_scan strict top rest with
+          | inr (rp, ap) => inr ((r0, r1) :: rp, (a, b) :: ap)
+          | inl e => inl e
           end
       | _, _ =>
-          if (length c0 =? 0) || (length c1 =? 0) then ca_scan top rest else None
+          if (length c0 =? 0) || (length c1 =? 0)
+          then (if strict then inl EAmbiguous else ca_scan strict top rest)
+          else inl EManyCA
       end
   end.
 
-Definition contacts (top : topology) (s : scheme) (c : cspec) (box : option vec) (periodic : bool)
-           (frames : list frame) : cres :=
+Definition contacts (strict : bool) (top : topology) (s : scheme) (c : cspec) (box : option vec)
+           (periodic : bool) (frames : list frame) : cres :=
   match resolve top c with
   | inl e => CErr e
   | inr rp =>
       match s with
       | SCa =>
-          match ca_scan top rp with
-          | None => CErr EManyCA
-          | Some (rp', ap) =>
+          match ca_scan (strict && match c with CExplicit _ => true | CAll _ => false end) top rp with
+          | inl e => CErr e
+          | inr (rp', ap) =>
               match ap with
               | [] => CErr EEmptyCA   (* compute_distances refuses an empty pair list *)
               | _ => COk rp' (map (fun f => map (fun p => [dist2 box periodic f p]) ap) frames)
@@ -210,9 +216,13 @@ Definition contacts (top : topology) (s : scheme) (c : cspec) (box : option vec)
       | _ =>
           let mem := membership s top in
           let flat := flat_pairs mem rp in
-          COk rp (map (fun f =>
-                    let row := map (dist2 box periodic f) flat in
-                    map (slice mem rp row) (seq 0 (length rp))) frames)
+          match flat with
+          | [] => CErr EEmptyCA   (* compute_distances refuses an empty pair list *)
+          | _ =>
+            COk rp (map (fun f =>
+                      let row := map (dist2 box periodic f) flat in
+                      map (slice mem rp row) (seq 0 (length rp))) frames)
+          end
       end
   end.
 
@@ -225,8 +235,8 @@ Definition has_empty (sl : list (list (list Z))) : bool :=
 (* what compute_contacts(soft_min=False) returns, squared: error when a slice is empty *)
 Inductive hres := HOk (pairs : list (nat * nat)) (d2 : list (list Z)) | HErr (e : cerr).
 
-Definition contacts_min top s c box periodic frames : hres :=
-  match contacts top s c box periodic frames with
+Definition contacts_min strict top s c box periodic frames : hres :=
+  match contacts strict top s c box periodic frames with
   | CErr e => HErr e
   | COk rp sl =>
       if has_empty sl then HErr EZeroSize
@@ -269,7 +279,7 @@ Fixpoint list_eqb {A} (eqb : A -> A -> bool) (l1 l2 : list A) : bool :=
   end.
 
 Definition cerr_code (e : cerr) : nat :=
-  match e with ENoPairs => 1 | ERange => 2 | EManyCA => 3 | EEmptyCA => 4 | EZeroSize => 5 end.
+  match e with ENoPairs => 1 | ERange => 2 | EManyCA => 3 | EEmptyCA => 4 | EZeroSize => 5 | EAmbiguous => 6 end.
 
 Definition hres_eqb (a b : hres) : bool :=
   match a, b with
@@ -282,13 +292,21 @@ Definition hres_eqb (a b : hres) : bool :=
 Definition scheme_of_nat (n : nat) : scheme :=
   match n with 0 => SCa | 1 => SClosest | 2 => SClosestHeavy | 3 => SSidechain | _ => SSidechainHeavy end.
 
-Definition ccase := (list raw_residue * nat * cspec * option vec * bool * list frame)%type.
+(* [strict] = (as-found variant) && (contacts passed as a numpy array) *)
+Definition ccase := (bool * list raw_residue * nat * cspec * option vec * bool * list frame)%type.
 
 Definition run_contacts_min (c : ccase) : hres :=
-  let '(raw, s, cs, box, per, frames) := c in
-  contacts_min (number_top 0 raw) (scheme_of_nat s) cs box per frames.
+  let '(strict, raw, s, cs, box, per, frames) := c in
+  contacts_min strict (number_top 0 raw) (scheme_of_nat s) cs box per frames.
 
 (* slices for the soft-min oracle: pairs and per frame/pair the squared distances fed to the reduction *)
 Definition run_contacts_slices (c : ccase) : cres :=
-  let '(raw, s, cs, box, per, frames) := c in
-  contacts (number_top 0 raw) (scheme_of_nat s) cs box per frames.
+  let '(strict, raw, s, cs, box, per, frames) := c in
+  contacts strict (number_top 0 raw) (scheme_of_nat s) cs box per frames.
+
+(* flat encoding for the harness: [[[i;j]...]] ++ per-frame slices, or [[[-code]]] *)
+Definition enc_cres (r : cres) : list (list (list Z)) :=
+  match r with
+  | COk pairs sl => map (fun p => [Z.of_nat (fst p); Z.of_nat (snd p)]) pairs :: sl
+  | CErr e => [[[(- Z.of_nat (cerr_code e))%Z]]]
+  end.
